@@ -277,4 +277,10 @@ theorem winv_new (ep : Nat) : WInv ep new := by
   · intro i j k v w hi _; have := hi.1; simp [new] at this
   · intro _ i k v hi; have := hi.1; simp [new] at this
 
+theorem repr_new : Repr new (fun _ => none) := by
+  intro k v _
+  constructor
+  · intro h; cases h
+  · rintro ⟨i, h, _⟩; simp [new] at h
+
 end Dora.Wait.Hmap
